@@ -93,7 +93,10 @@ Proof. vm_compute. split; reflexivity. Qed.
 
 Theorem code_facts :
   DEMUX_SELECT_AS_MODELLED = true /\ SPEEDTEST_AS_MODELLED = true /\ PING_ANSWERS_200_EOF = true
-  /\ RP_DESTINATION_IS_CONFIGURED_ORIGIN = true /\ SERVICE_CHANNELS_DO_NOT_AUTHENTICATE = true.
+  /\ RP_DESTINATION_IS_CONFIGURED_ORIGIN = true /\ SERVICE_CHANNELS_DO_NOT_AUTHENTICATE = true
+  (* the wait for the origin's response head reads the origin first and survives a failed write of the request body (the shape
+     the scenario c18_rp_refusal was written from: an origin that answers 413 and closes with the body unread) *)
+  /\ RP_HEAD_WAIT_KEEPS_THE_ORIGINS_ANSWER = true.
 Proof. repeat split; exact eq_refl. Qed.
 Print Assumptions code_facts.
 
